@@ -7,6 +7,44 @@
 #include "common/vh.hpp"
 
 #include <fcppt/function_impl.hpp>
+#include <fcppt/make_cref.hpp>
+#include <fcppt/make_ref.hpp>
+#include <fcppt/reference_impl.hpp>
+#include <fcppt/cast/dynamic_fun.hpp>
+#include <fcppt/either/comparison.hpp>
+#include <fcppt/either/construct.hpp>
+#include <fcppt/either/error.hpp>
+#include <fcppt/either/error_from_optional.hpp>
+#include <fcppt/either/make_failure.hpp>
+#include <fcppt/either/make_success.hpp>
+#include <fcppt/either/no_error.hpp>
+#include <fcppt/either/output.hpp>
+#include <fcppt/either/sequence_error.hpp>
+#include <fcppt/either/to_exception.hpp>
+#include <fcppt/monad/chain.hpp>
+#include <fcppt/monad/do.hpp>
+#include <fcppt/monad/return.hpp>
+#include <fcppt/mpl/list/object.hpp>
+#include <fcppt/optional/assign.hpp>
+#include <fcppt/optional/copy_value.hpp>
+#include <fcppt/optional/deref.hpp>
+#include <fcppt/optional/from_pointer.hpp>
+#include <fcppt/optional/make.hpp>
+#include <fcppt/optional/maybe_void_multi.hpp>
+#include <fcppt/optional/nothing.hpp>
+#include <fcppt/optional/output.hpp>
+#include <fcppt/optional/reference.hpp>
+#include <fcppt/optional/to_container.hpp>
+#include <fcppt/optional/to_exception.hpp>
+#include <fcppt/optional/to_pointer.hpp>
+#include <fcppt/variant/current_type_name.hpp>
+#include <fcppt/variant/dynamic_cast.hpp>
+#include <fcppt/variant/dynamic_cast_types.hpp>
+#include <fcppt/variant/from_list.hpp>
+#include <fcppt/variant/get_unsafe.hpp>
+#include <fcppt/variant/output.hpp>
+#include <fcppt/variant/to_optional_ref.hpp>
+#include <fcppt/variant/type_info.hpp>
 #include <fcppt/either/apply.hpp>
 #include <fcppt/either/bind.hpp>
 #include <fcppt/either/failure_opt.hpp>
@@ -50,10 +88,17 @@
 
 #include <cstddef>
 #include <deque>
+#include <list>
+#include <memory>
+#include <ostream>
+#include <sstream>
+#include <typeinfo>
 #include <initializer_list>
+#include <optional>
 #include <string>
 #include <type_traits>
 #include <utility>
+#include <variant>
 #include <vector>
 
 namespace
@@ -61,9 +106,17 @@ namespace
 struct bad_op
 {
 };
-struct E1 // the exception type try_call is asked to catch
+struct E1 // the exception type try_call is asked to catch (polymorphic, like std::exception)
 {
   int d;
+  explicit E1(int const x) : d{x} {}
+  E1(E1 const &) = default;
+  E1 &operator=(E1 const &) = default;
+  virtual ~E1() = default;
+};
+struct E1d : E1 // derived from the caught type: caught too (catch by reference to the base)
+{
+  using E1::E1;
 };
 struct E2 // any other exception type
 {
@@ -106,6 +159,7 @@ struct val
   friend bool operator==(val const &a, val const &b) { return a.v() == b.v(); }
   friend bool operator!=(val const &a, val const &b) { return a.v() != b.v(); }
   friend bool operator<(val const &a, val const &b) { return a.v() < b.v(); }
+  friend std::ostream &operator<<(std::ostream &s, val const &a) { return s << a.v(); }
 };
 
 using A = val<0>;
@@ -272,6 +326,32 @@ struct io<std::vector<T>>
   }
 };
 
+template <typename T>
+struct io<std::list<T>>
+{
+  static std::string sh(std::list<T> const &x) { return io<std::vector<T>>::sh(std::vector<T>(x.begin(), x.end())); }
+};
+template <typename T>
+struct io<std::deque<T>>
+{
+  static std::string sh(std::deque<T> const &x) { return io<std::vector<T>>::sh(std::vector<T>(x.begin(), x.end())); }
+};
+
+// a value or `X` (used for lists of functions some of which throw)
+template <typename T>
+struct io<std::optional<T>>
+{
+  static std::optional<T> rd(char const *&p)
+  {
+    if (*p == 'X')
+    {
+      ++p;
+      return std::nullopt;
+    }
+    return std::optional<T>{io<T>::rd(p)};
+  }
+};
+
 template <>
 struct io<bool>
 {
@@ -284,6 +364,12 @@ struct io<bool>
     return c == 't';
   }
   static std::string sh(bool const b) { return b ? "t" : "f"; }
+};
+
+template <>
+struct io<fcppt::either::no_error>
+{
+  static std::string sh(fcppt::either::no_error const &) { return "u"; }
 };
 
 template <>
@@ -302,12 +388,19 @@ T tok(std::string const &s)
   return r;
 }
 
+// A table entry `X` makes the continuation throw E2 instead of returning.
 template <typename T>
 struct table
 {
-  std::vector<T> t;
+  std::vector<std::optional<T>> t;
   // a poisoned (moved-from) argument is looked up as 0; the log shows the 9
-  T at(int const i) const { return t[static_cast<std::size_t>(i) < t.size() ? static_cast<std::size_t>(i) : 0U]; }
+  T at(int const i) const
+  {
+    std::optional<T> const &e{t[static_cast<std::size_t>(i) < t.size() ? static_cast<std::size_t>(i) : 0U]};
+    if (!e.has_value())
+      throw E2{};
+    return *e;
+  }
 };
 
 int ix(int const v) { return v >= 0 && v < 3 ? v : 0; }
@@ -318,10 +411,27 @@ table<T> tbl(std::size_t const n, std::string const &s)
   char const *p = s.c_str();
   table<T> r;
   for (std::size_t i = 0; i < n; ++i)
-    r.t.push_back(io<T>::rd(p));
+  {
+    if (*p == 'X')
+    {
+      ++p;
+      r.t.push_back(std::nullopt);
+    }
+    else
+      r.t.push_back(std::optional<T>{io<T>::rd(p)});
+  }
   if (*p != '\0')
     throw bad_op{};
   return r;
+}
+
+// a single value or `X` (the thunk that is given this throws E2)
+template <typename T>
+std::optional<T> tokx(std::string const &s)
+{
+  if (s == "X")
+    return std::nullopt;
+  return std::optional<T>{tok<T>(s)};
 }
 
 template <typename T>
@@ -359,12 +469,14 @@ auto fn3(char const *const site, table<Rt> const &t)
   };
 }
 template <typename Rt>
-auto thunk(char const *const site, Rt const &v)
+auto thunk(char const *const site, std::optional<Rt> const &v)
 {
   return [site, &v]() -> Rt
   {
     lg(site, {});
-    return v;
+    if (!v.has_value())
+      throw E2{};
+    return *v;
   };
 }
 
@@ -382,82 +494,139 @@ bool same(T const &a, T const &b)
 }
 
 // ------------------------------------------------------------------ value categories
-// L: non-const lvalue, C: const lvalue, R: rvalue.  After a call on an lvalue the source must be unchanged.
+// One letter per argument -- L: non-const lvalue, C: const lvalue, R: rvalue (a single letter stands for all
+// arguments).  After a call on an lvalue the source must be unchanged, also when the call ends in an exception.
+bool g_src_mod = false;
+
+template <char Cat, typename T>
+struct holder;
+template <typename T>
+struct holder<'L', T>
+{
+  T x;
+  explicit holder(T const &s) : x{s} {}
+  T &get() { return x; }
+  [[nodiscard]] bool ok(T const &s) const { return same(x, s); }
+};
+template <typename T>
+struct holder<'C', T>
+{
+  T const x;
+  explicit holder(T const &s) : x{s} {}
+  T const &get() { return x; }
+  [[nodiscard]] bool ok(T const &s) const { return same(x, s); }
+};
+template <typename T>
+struct holder<'R', T>
+{
+  T x;
+  explicit holder(T const &s) : x{s} {}
+  T &&get() { return std::move(x); }
+  [[nodiscard]] bool ok(T const &) const { return true; }
+};
+
+template <char C1, typename T1, typename Fn>
+std::string run1(T1 const &s1, Fn const &fn)
+{
+  holder<C1, T1> h1{s1};
+  try
+  {
+    std::string r{show(fn(h1.get()))};
+    return h1.ok(s1) ? r : r + " SRC-MODIFIED";
+  }
+  catch (bad_op const &)
+  {
+    throw;
+  }
+  catch (...)
+  {
+    if (!h1.ok(s1))
+      g_src_mod = true;
+    throw;
+  }
+}
+
+template <char C1, char C2, typename T1, typename T2, typename Fn>
+std::string run2(T1 const &s1, T2 const &s2, Fn const &fn)
+{
+  holder<C1, T1> h1{s1};
+  holder<C2, T2> h2{s2};
+  try
+  {
+    std::string r{show(fn(h1.get(), h2.get()))};
+    return h1.ok(s1) && h2.ok(s2) ? r : r + " SRC-MODIFIED";
+  }
+  catch (bad_op const &)
+  {
+    throw;
+  }
+  catch (...)
+  {
+    if (!(h1.ok(s1) && h2.ok(s2)))
+      g_src_mod = true;
+    throw;
+  }
+}
+
+template <char C1, char C2, char C3, typename T1, typename T2, typename T3, typename Fn>
+std::string run3(T1 const &s1, T2 const &s2, T3 const &s3, Fn const &fn)
+{
+  holder<C1, T1> h1{s1};
+  holder<C2, T2> h2{s2};
+  holder<C3, T3> h3{s3};
+  try
+  {
+    std::string r{show(fn(h1.get(), h2.get(), h3.get()))};
+    return h1.ok(s1) && h2.ok(s2) && h3.ok(s3) ? r : r + " SRC-MODIFIED";
+  }
+  catch (bad_op const &)
+  {
+    throw;
+  }
+  catch (...)
+  {
+    if (!(h1.ok(s1) && h2.ok(s2) && h3.ok(s3)))
+      g_src_mod = true;
+    throw;
+  }
+}
+
 template <typename T, typename Fn>
 std::string cat1(std::string const &c, T const &src, Fn const &fn)
 {
   if (c == "L")
-  {
-    T x{src};
-    std::string r{show(fn(x))};
-    return same(x, src) ? r : r + " SRC-MODIFIED";
-  }
+    return run1<'L'>(src, fn);
   if (c == "C")
-  {
-    T const x{src};
-    std::string r{show(fn(x))};
-    return same(x, src) ? r : r + " SRC-MODIFIED";
-  }
+    return run1<'C'>(src, fn);
   if (c == "R")
-  {
-    T x{src};
-    return show(fn(std::move(x)));
-  }
+    return run1<'R'>(src, fn);
   throw bad_op{};
 }
 
+// all nine combinations
 template <typename T1, typename T2, typename Fn>
-std::string cat2(std::string const &c, T1 const &s1, T2 const &s2, Fn const &fn)
+std::string cat2(std::string const &c0, T1 const &s1, T2 const &s2, Fn const &fn)
 {
-  if (c == "L")
-  {
-    T1 x1{s1};
-    T2 x2{s2};
-    std::string r{show(fn(x1, x2))};
-    return same(x1, s1) && same(x2, s2) ? r : r + " SRC-MODIFIED";
-  }
-  if (c == "C")
-  {
-    T1 const x1{s1};
-    T2 const x2{s2};
-    std::string r{show(fn(x1, x2))};
-    return same(x1, s1) && same(x2, s2) ? r : r + " SRC-MODIFIED";
-  }
-  if (c == "R")
-  {
-    T1 x1{s1};
-    T2 x2{s2};
-    return show(fn(std::move(x1), std::move(x2)));
-  }
+  std::string const c{c0.size() == 1 ? std::string(2, c0[0]) : c0};
+#define VH_C2(a, b) \
+  if (c.size() == 2 && c[0] == a && c[1] == b) \
+    return run2<a, b>(s1, s2, fn);
+  VH_C2('L', 'L') VH_C2('L', 'C') VH_C2('L', 'R') VH_C2('C', 'L') VH_C2('C', 'C') VH_C2('C', 'R') VH_C2('R', 'L') VH_C2('R', 'C') VH_C2('R', 'R')
+#undef VH_C2
   throw bad_op{};
 }
 
+// the three uniform combinations and every mixture of L and R (C mixes like L: both are lvalue references)
 template <typename T1, typename T2, typename T3, typename Fn>
-std::string cat3(std::string const &c, T1 const &s1, T2 const &s2, T3 const &s3, Fn const &fn)
+std::string cat3(std::string const &c0, T1 const &s1, T2 const &s2, T3 const &s3, Fn const &fn)
 {
-  if (c == "L")
-  {
-    T1 x1{s1};
-    T2 x2{s2};
-    T3 x3{s3};
-    std::string r{show(fn(x1, x2, x3))};
-    return same(x1, s1) && same(x2, s2) && same(x3, s3) ? r : r + " SRC-MODIFIED";
-  }
-  if (c == "C")
-  {
-    T1 const x1{s1};
-    T2 const x2{s2};
-    T3 const x3{s3};
-    std::string r{show(fn(x1, x2, x3))};
-    return same(x1, s1) && same(x2, s2) && same(x3, s3) ? r : r + " SRC-MODIFIED";
-  }
-  if (c == "R")
-  {
-    T1 x1{s1};
-    T2 x2{s2};
-    T3 x3{s3};
-    return show(fn(std::move(x1), std::move(x2), std::move(x3)));
-  }
+  std::string const c{c0.size() == 1 ? std::string(3, c0[0]) : c0};
+#define VH_C3(a, b, d) \
+  if (c.size() == 3 && c[0] == a && c[1] == b && c[2] == d) \
+    return run3<a, b, d>(s1, s2, s3, fn);
+  VH_C3('L', 'L', 'L') VH_C3('C', 'C', 'C') VH_C3('R', 'R', 'R') VH_C3('R', 'L', 'L') VH_C3('L', 'R', 'L') VH_C3('L', 'L', 'R')
+  VH_C3('R', 'R', 'L') VH_C3('R', 'L', 'R') VH_C3('L', 'R', 'R')
+#undef VH_C3
   throw bad_op{};
 }
 
@@ -469,6 +638,934 @@ using oC = opt<C>;
 using eA = eith<E, A>;
 using eB = eith<E, B>;
 using eC = eith<E, C>;
+
+
+// ------------------------------------------------------------------ the rest of the public API
+// objects that references / pointers designate: three cells, named by their index
+struct cells3
+{
+  std::vector<A> c;
+  explicit cells3(std::string const &s)
+  {
+    char const *p = s.c_str();
+    for (int i = 0; i < 3; ++i)
+      c.push_back(io<A>::rd(p));
+    if (*p != '\0')
+      throw bad_op{};
+  }
+  // `&i` -> cell i
+  A &at(std::string const &s, std::size_t const pos)
+  {
+    if (s.size() != pos + 2 || s[pos] != '&' || s[pos + 1] < '0' || s[pos + 1] > '2')
+      throw bad_op{};
+    return c[static_cast<std::size_t>(s[pos + 1] - '0')];
+  }
+  [[nodiscard]] std::string name(A const *const a) const
+  {
+    for (std::size_t i = 0; i < c.size(); ++i)
+      if (a == &c[i])
+        return "&" + std::to_string(i);
+    return "&?";
+  }
+  // every cell gets another value: a copy made before is unaffected, a reference sees it
+  void bump()
+  {
+    for (A &a : c)
+      a = A{(a.v() + 1) % 3};
+  }
+};
+
+template <typename Ref>
+fcppt::optional::reference<Ref> opt_ref(cells3 &cs, std::string const &s)
+{
+  if (s == "N")
+    return fcppt::optional::reference<Ref>{};
+  if (s.empty() || s[0] != 'J')
+    throw bad_op{};
+  return fcppt::optional::reference<Ref>{fcppt::reference<Ref>{cs.at(s, 1)}};
+}
+
+// a small class hierarchy for variant::dynamic_cast_: d1 and d3 derive from base, d2 from d1
+struct dbase
+{
+  dbase() = default;
+  dbase(dbase const &) = delete;
+  dbase &operator=(dbase const &) = delete;
+  virtual ~dbase() = default;
+};
+struct d1 : dbase
+{
+};
+struct d2 : d1
+{
+};
+struct d3 : dbase
+{
+};
+
+template <typename T>
+char dyn_letter()
+{
+  using U = std::remove_cv_t<T>;
+  return std::is_same_v<U, d1> ? '1' : std::is_same_v<U, d2> ? '2' : '3';
+}
+
+template <typename Base, typename... Ts>
+std::string dyn_cast_op(Base &b)
+{
+  using types = fcppt::mpl::list::object<Ts...>;
+  using variant_type = fcppt::variant::from_list<fcppt::variant::dynamic_cast_types<types>>;
+  fcppt::optional::object<variant_type> const r{fcppt::variant::dynamic_cast_<types, fcppt::cast::dynamic_fun>(b)};
+  if (!r.has_value())
+    return "N";
+  return "J" + std::to_string(r.get_unsafe().type_index()) + ":" +
+         std::visit(
+             [&b](auto const &ref) -> std::string
+             {
+               using T = typename std::remove_cvref_t<decltype(ref)>::type;
+               return std::string(1, dyn_letter<T>()) +
+                      (static_cast<dbase const *>(&ref.get()) == static_cast<dbase const *>(&b) ? "=obj" : "=other");
+             },
+             r.get_unsafe().impl());
+}
+
+template <typename Base>
+std::string dyn_cast_list(std::string const &l, Base &b)
+{
+  if (l == "1")
+    return dyn_cast_op<Base, d1>(b);
+  if (l == "2")
+    return dyn_cast_op<Base, d2>(b);
+  if (l == "12")
+    return dyn_cast_op<Base, d1, d2>(b);
+  if (l == "21")
+    return dyn_cast_op<Base, d2, d1>(b);
+  if (l == "32")
+    return dyn_cast_op<Base, d3, d2>(b);
+  if (l == "123")
+    return dyn_cast_op<Base, d1, d2, d3>(b);
+  if (l == "231")
+    return dyn_cast_op<Base, d2, d3, d1>(b);
+  if (l == "321")
+    return dyn_cast_op<Base, d3, d2, d1>(b);
+  throw bad_op{};
+}
+
+// the implicitly defined special members of the three classes and std::swap, including an object with itself
+template <typename T>
+std::string asg_op(std::string const &k, T const &a, T const &b)
+{
+  if (k == "copy")
+  {
+    T x{a};
+    T const y{b};
+    x = y;
+    return show(x) + " " + show(y);
+  }
+  if (k == "move")
+  {
+    T x{a};
+    T y{b};
+    x = std::move(y);
+    return show(x);
+  }
+  if (k == "cctor")
+  {
+    T const y{b};
+    T const x{y}; // NOLINT(performance-unnecessary-copy-initialization)
+    return show(x) + " " + show(y);
+  }
+  if (k == "mctor")
+  {
+    T y{b};
+    T const x{std::move(y)};
+    return show(x);
+  }
+  if (k == "swap")
+  {
+    T x{a};
+    T y{b};
+    std::swap(x, y);
+    return show(x) + " " + show(y);
+  }
+  if (k == "self")
+  {
+    T x{a};
+    T const &r{x};
+    x = r;
+    return show(x);
+  }
+  if (k == "selfmove")
+  {
+    T x{a};
+    T &r{x};
+    x = std::move(r);
+    return show(x);
+  }
+  if (k == "selfswap")
+  {
+    T x{a};
+    T &r{x};
+    std::swap(x, r);
+    return show(x);
+  }
+  throw bad_op{};
+}
+
+using err = fcppt::either::error<E>;
+
+std::string op_vv(std::vector<std::string> const &t);
+
+std::string op2(std::vector<std::string> const &t)
+{
+  std::string const &o = t[0];
+  std::size_t const n = t.size();
+  namespace fo = fcppt::optional;
+  namespace fe = fcppt::either;
+  namespace fv = fcppt::variant;
+
+  // ---------------- optional
+  if (o == "o.to_cont" && n == 3)
+    return cat1(t[1], tok<oA>(t[2]), [&](auto &&x) -> std::vector<A> { return fo::to_container<std::vector<A>>(FWD(x)); });
+  if (o == "o.copy_value" && n == 4)
+  {
+    cells3 cs{t[3]};
+    oA r{};
+    if (t[1] == "L")
+      r = fo::copy_value(opt_ref<A>(cs, t[2]));
+    else if (t[1] == "C")
+      r = fo::copy_value(opt_ref<A const>(cs, t[2]));
+    else
+      throw bad_op{};
+    cs.bump();
+    return show(r);
+  }
+  if (o == "o.deref" && n == 4)
+  {
+    // p: optional<A *>, i: optional<vector<A>::iterator>, both pointing at a cell
+    cells3 cs{t[3]};
+    auto const fin = [&cs](fo::reference<A> const &r) -> std::string
+    {
+      cs.bump();
+      return r.has_value() ? "J" + cs.name(&r.get_unsafe().get()) + "=" + show(r.get_unsafe().get()) : std::string{"N"};
+    };
+    if (t[1] == "p")
+    {
+      opt<A *> const src{t[2] == "N" ? opt<A *>{} : opt<A *>{&opt_ref<A>(cs, t[2]).get_unsafe().get()}};
+      return fin(fo::deref(src));
+    }
+    if (t[1] == "i")
+    {
+      using it = std::vector<A>::iterator;
+      opt<it> const src{t[2] == "N" ? opt<it>{} : opt<it>{cs.c.begin() + (&opt_ref<A>(cs, t[2]).get_unsafe().get() - cs.c.data())}};
+      return fin(fo::deref(src));
+    }
+    throw bad_op{};
+  }
+  if (o == "o.deref_up" && n == 2)
+  {
+    // optional<unique_ptr<A>>: the reference designates the object the pointer owns
+    oA const v{tok<oA>(t[1])};
+    using up = std::unique_ptr<A>;
+    opt<up> const src{v.has_value() ? opt<up>{std::make_unique<A>(v.get_unsafe())} : opt<up>{}};
+    fo::reference<A> const r{fo::deref(src)};
+    if (!r.has_value())
+      return "N";
+    return std::string{&r.get_unsafe().get() == src.get_unsafe().get() ? "J&u=" : "J&?="} + show(r.get_unsafe().get());
+  }
+  if (o == "o.mvm1" && n == 3)
+    return cat1(t[1], tok<oA>(t[2]), [&](auto &&x) -> std::string
+                {
+                  fo::maybe_void_multi([](A a) { lg("t", {a.v()}); }, FWD(x));
+                  return "u";
+                });
+  if (o == "o.mvm2" && n == 4)
+    return cat2(t[1], tok<oA>(t[2]), tok<oB>(t[3]), [&](auto &&x, auto &&y) -> std::string
+                {
+                  fo::maybe_void_multi([](A a, B b) { lg("t", {a.v(), b.v()}); }, FWD(x), FWD(y));
+                  return "u";
+                });
+  if (o == "o.mvm3" && n == 5)
+    return cat3(t[1], tok<oA>(t[2]), tok<oB>(t[3]), tok<oC>(t[4]), [&](auto &&x, auto &&y, auto &&z) -> std::string
+                {
+                  fo::maybe_void_multi([](A a, B b, C c) { lg("t", {a.v(), b.v(), c.v()}); }, FWD(x), FWD(y), FWD(z));
+                  return "u";
+                });
+  if (o == "o.assign" && n == 3)
+  {
+    // assign only accepts an rvalue argument (its requires-clause compares Element with remove_cv_t<Arg>, and Arg is a
+    // reference type for lvalues)
+    oA x{tok<oA>(t[1])};
+    A &r{fo::assign(x, tok<A>(t[2]))};
+    return show(x) + " " + show(r) + (x.has_value() && &r == &x.get_unsafe() ? " in" : " other");
+  }
+  if (o == "o.set" && n == 3)
+  {
+    oA x{tok<oA>(t[1])};
+    if (!x.has_value())
+      throw bad_op{}; // precondition of get_unsafe
+    x.get_unsafe() = tok<A>(t[2]);
+    return show(x);
+  }
+  if (o == "o.from_ptr" && n == 3)
+  {
+    cells3 cs{t[2]};
+    A *const p{t[1] == "P-" ? nullptr : (t[1].size() == 3 && t[1][0] == 'P') ? &cs.at(t[1], 1) : throw bad_op{}};
+    fo::reference<A> const r{fo::from_pointer(p)};
+    A const *const pc{p};
+    fo::reference<A const> const rc{fo::from_pointer(pc)};
+    if (r.has_value() != rc.has_value() || (r.has_value() && &r.get_unsafe().get() != &rc.get_unsafe().get()))
+      return "CONST-DIFFERS";
+    return r.has_value() ? "J" + cs.name(&r.get_unsafe().get()) : std::string{"N"};
+  }
+  if (o == "o.to_ptr" && n == 3)
+  {
+    cells3 cs{t[2]};
+    A *const p{fo::to_pointer(opt_ref<A>(cs, t[1]))};
+    A const *const pc{fo::to_pointer(opt_ref<A const>(cs, t[1]))};
+    if (p != pc)
+      return "CONST-DIFFERS";
+    return p == nullptr ? std::string{"P-"} : "P" + cs.name(p);
+  }
+  if (o == "o.to_exc" && n == 3)
+    return cat1(t[1], tok<oA>(t[2]), [&](auto &&x) -> A
+                {
+                  return fo::to_exception(FWD(x), []
+                                          {
+                                            lg("m", {});
+                                            return E2{};
+                                          });
+                });
+  if (o == "o.make" && n == 3)
+    return cat1(t[1], tok<A>(t[2]), [&](auto &&x) -> oA { return fo::make(FWD(x)); });
+  if (o == "o.out" && n == 2)
+  {
+    std::ostringstream s;
+    s << tok<oA>(t[1]);
+    return s.str();
+  }
+  if (o == "o.nothing" && n == 1)
+  {
+    oA const x = fo::nothing{};
+    return show(x);
+  }
+
+  // ---------------- either
+  if (o == "e.cmp" && n == 3)
+  {
+    eA const a{tok<eA>(t[1])}, b{tok<eA>(t[2])};
+    return "[" + show(a == b) + show(a != b) + "]";
+  }
+  if (o == "e.cmp.same" && n == 2)
+  {
+    eA const a{tok<eA>(t[1])};
+    return "[" + show(a == a) + show(a != a) + "]";
+  }
+  if (o == "e.construct" && n == 4)
+  {
+    bool const b{tok<bool>(t[1])};
+    std::optional<A> const sv{tokx<A>(t[2])};
+    std::optional<E> const fv_{tokx<E>(t[3])};
+    return show(fe::construct(b, thunk<A>("s", sv), thunk<E>("f", fv_)));
+  }
+  if (o == "e.err_from_opt" && n == 3)
+    return cat1(t[1], tok<opt<E>>(t[2]), [&](auto &&x) -> err { return fe::error_from_optional(FWD(x)); });
+  if (o == "e.mk_fail" && n == 3)
+    return cat1(t[1], tok<E>(t[2]), [&](auto &&x) -> eA { return fe::make_failure<A>(FWD(x)); });
+  if (o == "e.mk_succ" && n == 3)
+    return cat1(t[1], tok<A>(t[2]), [&](auto &&x) -> eA { return fe::make_success<E>(FWD(x)); });
+  if (o == "e.out" && n == 2)
+  {
+    std::ostringstream s;
+    s << tok<eA>(t[1]);
+    return s.str();
+  }
+  if (o == "e.seq_err" && n == 4)
+  {
+    // the function's table: `u` = success (no_error), a digit = that failure, `X` = throws
+    std::string const &tb = t[3];
+    if (tb.size() != 3 || tb.find_first_not_of("u012X") != std::string::npos)
+      throw bad_op{};
+    return cat1(t[1], tok<std::vector<A>>(t[2]), [&](auto &&x) -> err
+                {
+                  return fe::sequence_error(FWD(x), [&tb](A a) -> err
+                                            {
+                                              lg("f", {a.v()});
+                                              char const c{tb[static_cast<std::size_t>(ix(a.v()))]};
+                                              if (c == 'X')
+                                                throw E2{};
+                                              return c == 'u' ? err{fe::no_error{}} : err{E{c - '0'}};
+                                            });
+                });
+  }
+  if (o == "e.to_exc" && n == 3)
+    return cat1(t[1], tok<eA>(t[2]), [&](auto &&x) -> A
+                {
+                  return fe::to_exception(FWD(x), [](E f)
+                                          {
+                                            lg("m", {f.v()});
+                                            return E1{f.v()};
+                                          });
+                });
+  if (o == "e.set" && n == 3)
+  {
+    eA x{tok<eA>(t[1])};
+    if (x.has_success())
+      x.get_success_unsafe() = tok<A>(t[2]);
+    else
+      x.get_failure_unsafe() = tok<E>(t[2]);
+    return show(x);
+  }
+
+  // ---------------- variant
+  if (o == "v.to_opt_ref" && n == 5)
+  {
+    // L: to_optional_ref<T>(variant &), written through afterwards; C: to_optional_ref<T const>(variant const &)
+    // (to_optional_ref<T const> on a non-const variant does not compile: make_ref yields reference<T>)
+    std::string const &c = t[1];
+    var3 x{tok<var3>(t[3])};
+    auto const go = [&]<typename T>(T const &nv) -> std::string
+    {
+      auto const fin = [&x](auto const &r) -> std::string
+      {
+        if (!r.has_value())
+          return "N - " + show(x);
+        auto const &held{r.get_unsafe().get()};
+        bool const in{std::visit([&held](auto const &a) -> bool { return static_cast<void const *>(&a) == static_cast<void const *>(&held); }, x.impl())};
+        std::string const first{"J" + show(held) + (in ? " in " : " other ")};
+        return first + show(x);
+      };
+      if (c == "L")
+      {
+        fo::reference<T> const r{fv::to_optional_ref<T>(x)};
+        if (r.has_value())
+          r.get_unsafe().get() = nv;
+        return fin(r);
+      }
+      if (c == "C")
+        return fin(fv::to_optional_ref<T const>(std::as_const(x)));
+      throw bad_op{};
+    };
+    if (t[2] == "0")
+      return go(tok<A>(t[4]));
+    if (t[2] == "1")
+      return go(tok<B>(t[4]));
+    if (t[2] == "2")
+      return go(tok<C>(t[4]));
+    throw bad_op{};
+  }
+  if (o == "v.get" && n == 3)
+  {
+    // free get_unsafe<T> on the held type (its precondition), read through the const and written through the non-const overload
+    var3 x{tok<var3>(t[1])};
+    auto const go = [&]<typename T>(T const &nv) -> std::string
+    {
+      std::string const r{show(fv::get_unsafe<T>(std::as_const(x)))};
+      fv::get_unsafe<T>(x) = nv;
+      return r + " " + show(x);
+    };
+    switch (x.type_index())
+    {
+    case 0: return go(tok<A>(t[2]));
+    case 1: return go(tok<B>(t[2]));
+    case 2: return go(tok<C>(t[2]));
+    default: throw bad_op{};
+    }
+  }
+  if (o == "v.out" && n == 2)
+  {
+    std::ostringstream s;
+    s << tok<var3>(t[1]);
+    return s.str();
+  }
+  if (o == "v.tinfo" && n == 2)
+  {
+    var3 const x{tok<var3>(t[1])};
+    std::type_info const &ti{fv::type_info(x)};
+    std::string const nm{fv::current_type_name(x)};
+    int const byinfo{ti == typeid(A) ? 0 : ti == typeid(B) ? 1 : ti == typeid(C) ? 2 : 9};
+    int const byname{nm == fcppt::type_name_from_index(typeid(A))   ? 0
+                     : nm == fcppt::type_name_from_index(typeid(B)) ? 1
+                     : nm == fcppt::type_name_from_index(typeid(C)) ? 2
+                                                                     : 9};
+    return std::to_string(byinfo) + std::to_string(byname) + show(x.is_invalid());
+  }
+  if (o == "v.dyn" && n == 4)
+  {
+    // <K | C> <type list> <dynamic type: 0 base, 1 d1, 2 d2 (: d1), 3 d3>
+    dbase b0;
+    d1 b1;
+    d2 b2;
+    d3 b3;
+    dbase &b{t[3] == "0" ? b0 : t[3] == "1" ? static_cast<dbase &>(b1) : t[3] == "2" ? static_cast<dbase &>(b2) : t[3] == "3" ? static_cast<dbase &>(b3) : throw bad_op{}};
+    if (t[1] == "L")
+      return dyn_cast_list<dbase>(t[2], b);
+    if (t[1] == "C")
+    {
+      // the const flavour: list of const types, const base
+      dbase const &cb{b};
+      if (t[2] == "12")
+        return dyn_cast_op<dbase const, d1 const, d2 const>(cb);
+      if (t[2] == "21")
+        return dyn_cast_op<dbase const, d2 const, d1 const>(cb);
+      throw bad_op{};
+    }
+    throw bad_op{};
+  }
+
+
+  if (o == "o.asg" && n == 4)
+    return asg_op(t[1], tok<oA>(t[2]), tok<oA>(t[3]));
+  if (o == "e.asg" && n == 4)
+    return asg_op(t[1], tok<eA>(t[2]), tok<eA>(t[3]));
+  if (o == "v.asg" && n == 4)
+    return asg_op(t[1], tok<var3>(t[2]), tok<var3>(t[3]));
+  if (o == "o.assign.own" && n == 2)
+  {
+    // the argument of assign is (an rvalue reference to) the optional's own content
+    oA x{tok<oA>(t[1])};
+    if (!x.has_value())
+      throw bad_op{};
+    A &r{fo::assign(x, std::move(x.get_unsafe()))};
+    return show(x) + " " + show(r) + (&r == &x.get_unsafe() ? " in" : " other");
+  }
+  // ---------------- constructors (object_impl.hpp): an lvalue argument is copied, not moved from
+  if (o == "o.ctor" && n == 3)
+    return cat1(t[1], tok<A>(t[2]), [&](auto &&x) -> oA { return oA{FWD(x)}; });
+  if (o == "e.ctor" && n == 4)
+  {
+    if (t[2] == "S")
+      return cat1(t[1], tok<A>(t[3]), [&](auto &&x) -> eA { return eA{FWD(x)}; });
+    if (t[2] == "F")
+      return cat1(t[1], tok<E>(t[3]), [&](auto &&x) -> eA { return eA{FWD(x)}; });
+    throw bad_op{};
+  }
+  if (o == "v.ctor" && n == 3)
+  {
+    var3 const v{tok<var3>(t[2])};
+    switch (v.type_index())
+    {
+    case 0: return cat1(t[1], std::get<0>(v.impl()), [&](auto &&x) -> var3 { return var3{FWD(x)}; });
+    case 1: return cat1(t[1], std::get<1>(v.impl()), [&](auto &&x) -> var3 { return var3{FWD(x)}; });
+    case 2: return cat1(t[1], std::get<2>(v.impl()), [&](auto &&x) -> var3 { return var3{FWD(x)}; });
+    default: throw bad_op{};
+    }
+  }
+  // to_exception on an lvalue returns a reference to the value inside the source
+  if (o == "o.to_exc_ref" && n == 3)
+  {
+    auto const go = [&](auto &x) -> std::string
+    {
+      auto &r{fo::to_exception(x, []
+                               {
+                                 lg("m", {});
+                                 return E2{};
+                               })};
+      static_assert(std::is_lvalue_reference_v<decltype(fo::to_exception(x, [] { return E2{}; }))>);
+      return std::string{&r == &x.get_unsafe() ? "in" : "other"} + ":" + show(r);
+    };
+    oA x{tok<oA>(t[2])};
+    if (t[1] == "L")
+      return go(x);
+    if (t[1] == "C")
+      return go(std::as_const(x));
+    throw bad_op{};
+  }
+  if (o == "e.to_exc_ref" && n == 3)
+  {
+    auto const go = [&](auto &x) -> std::string
+    {
+      auto &r{fe::to_exception(x, [](E const &f)
+                               {
+                                 lg("m", {f.v()});
+                                 return E1{f.v()};
+                               })};
+      return std::string{&r == &x.get_success_unsafe() ? "in" : "other"} + ":" + show(r);
+    };
+    eA x{tok<eA>(t[2])};
+    if (t[1] == "L")
+      return go(x);
+    if (t[1] == "C")
+      return go(std::as_const(x));
+    throw bad_op{};
+  }
+
+  // ---------------- monad
+  if (o == "m.chain2.o" && n == 5)
+  {
+    auto const f = tbl<oB>(3, t[3]);
+    auto const g = tbl<oC>(3, t[4]);
+    return cat1(t[1], tok<oA>(t[2]), [&](auto &&x) -> oC { return fcppt::monad::chain(FWD(x), fn1<oB, A>("f", f), fn1<oC, B>("g", g)); });
+  }
+  if (o == "m.chain2.e" && n == 5)
+  {
+    auto const f = tbl<eB>(3, t[3]);
+    auto const g = tbl<eC>(3, t[4]);
+    return cat1(t[1], tok<eA>(t[2]), [&](auto &&x) -> eC { return fcppt::monad::chain(FWD(x), fn1<eB, A>("f", f), fn1<eC, B>("g", g)); });
+  }
+  if (o == "m.chain0.o" && n == 3)
+    return cat1(t[1], tok<oA>(t[2]), [&](auto &&x) -> oA { return fcppt::monad::chain(FWD(x)); });
+  if (o == "m.do3.o" && n == 5)
+  {
+    auto const f = tbl<oB>(3, t[3]);
+    auto const g = tbl<oC>(9, t[4]);
+    return cat1(t[1], tok<oA>(t[2]), [&](auto &&x) -> oC
+                {
+                  return fcppt::monad::do_(
+                      FWD(x), [&f](A const &a) -> oB { return fn1<oB, A>("f", f)(a); },
+                      [&g](A const &a, B const &b) -> oC { return fn2<oC, A, B>("g", g)(a, b); });
+                });
+  }
+  if (o == "m.do3.e" && n == 5)
+  {
+    auto const f = tbl<eB>(3, t[3]);
+    auto const g = tbl<eC>(9, t[4]);
+    return cat1(t[1], tok<eA>(t[2]), [&](auto &&x) -> eC
+                {
+                  return fcppt::monad::do_(
+                      FWD(x), [&f](A const &a) -> eB { return fn1<eB, A>("f", f)(a); },
+                      [&g](A const &a, B const &b) -> eC { return fn2<eC, A, B>("g", g)(a, b); });
+                });
+  }
+  // monad::return_ only accepts rvalues (instance<>::return_ requires move_constructible<Value> with Value deduced as a
+  // reference type for lvalues)
+  if (o == "m.ret.o" && n == 2)
+    return show(fcppt::monad::return_<opt<C>>(tok<A>(t[1])));
+  if (o == "m.ret.e" && n == 2)
+    return show(fcppt::monad::return_<eith<E, C>>(tok<A>(t[1])));
+  return op_vv(t);
+}
+
+// ------------------------------------------------------------------ the valueless state (is_invalid)
+// `thrower`'s copy / move construction throws when the source is armed; assignment does not.  Assigning a variant that
+// holds an armed thrower to one that holds an A destroys the A first: the target is left valueless.
+struct thrower
+{
+  bool armed{false};
+  thrower() = default;
+  thrower(thrower const &o) : armed{o.armed}
+  {
+    if (o.armed)
+      throw E2{};
+  }
+  thrower(thrower &&o) : armed{o.armed} // NOLINT
+  {
+    if (o.armed)
+      throw E2{};
+  }
+  thrower &operator=(thrower const &o)
+  {
+    armed = o.armed;
+    return *this;
+  }
+  thrower &operator=(thrower &&o) // NOLINT
+  {
+    armed = o.armed;
+    return *this;
+  }
+  ~thrower() = default;
+  friend bool operator==(thrower const &, thrower const &) { return true; }
+  friend bool operator!=(thrower const &, thrower const &) { return false; }
+  friend bool operator<(thrower const &, thrower const &) { return false; }
+  friend std::ostream &operator<<(std::ostream &s, thrower const &) { return s << 'T'; }
+};
+
+using var2 = fcppt::variant::object<A, thrower>;
+
+std::string show2(var2 const &x)
+{
+  switch (x.impl().index())
+  {
+  case 0: return "A" + std::to_string(std::get<0>(x.impl()).v());
+  case 1: return "T";
+  default: return "V";
+  }
+}
+
+// A<d>, T (holds an unarmed thrower), V (valueless, made by a throwing assignment)
+var2 mk2(std::string const &s)
+{
+  if (s == "T")
+    return var2{thrower{}};
+  if (s == "V")
+  {
+    var2 x{A{0}};
+    var2 y{thrower{}};
+    fcppt::variant::get_unsafe<thrower>(y).armed = true;
+    try
+    {
+      x = y;
+    }
+    catch (E2 const &)
+    {
+    }
+    return x;
+  }
+  if (s.size() == 2 && s[0] == 'A')
+  {
+    char const *p = s.c_str() + 1;
+    return var2{io<A>::rd(p)};
+  }
+  throw bad_op{};
+}
+
+// continuations that take a non-const reference and write through it (non-const lvalue sources): the argument must be
+// the object inside the source, so the source shows the new value afterwards
+template <typename X>
+void bump(X &x)
+{
+  x = X{(x.v() + 1) % 3};
+}
+template <typename Rt, typename X>
+auto fn1m(char const *const site, table<Rt> const &t)
+{
+  return [site, &t](X &x) -> Rt
+  {
+    int const old{x.v()};
+    lg(site, {old});
+    bump(x);
+    return t.at(ix(old));
+  };
+}
+template <typename Rt, typename X, typename Y>
+auto fn2m(char const *const site, table<Rt> const &t)
+{
+  return [site, &t](X &x, Y &y) -> Rt
+  {
+    int const ox{x.v()}, oy{y.v()};
+    lg(site, {ox, oy});
+    bump(x);
+    bump(y);
+    return t.at(ix(ox) * 3 + ix(oy));
+  };
+}
+
+std::string op_mut(std::vector<std::string> const &t)
+{
+  std::string const &o = t[0];
+  std::size_t const n = t.size();
+  namespace fo = fcppt::optional;
+  namespace fe = fcppt::either;
+  namespace fv = fcppt::variant;
+  if (o == "o.map.mut" && n == 3)
+  {
+    auto const f = tbl<B>(3, t[2]);
+    oA x{tok<oA>(t[1])};
+    oB const r{fo::map(x, fn1m<B, A>("f", f))};
+    return show(r) + " " + show(x);
+  }
+  if (o == "o.bind.mut" && n == 3)
+  {
+    auto const f = tbl<oB>(3, t[2]);
+    oA x{tok<oA>(t[1])};
+    oB const r{fo::bind(x, fn1m<oB, A>("f", f))};
+    return show(r) + " " + show(x);
+  }
+  if (o == "o.maybe.mut" && n == 4)
+  {
+    std::optional<B> const d{tokx<B>(t[2])};
+    auto const f = tbl<B>(3, t[3]);
+    oA x{tok<oA>(t[1])};
+    B const r{fo::maybe(x, thunk<B>("d", d), fn1m<B, A>("t", f))};
+    return show(r) + " " + show(x);
+  }
+  if (o == "o.maybe_void.mut" && n == 2)
+  {
+    oA x{tok<oA>(t[1])};
+    fo::maybe_void(x, [](A &a)
+                   {
+                     lg("t", {a.v()});
+                     bump(a);
+                   });
+    return "u " + show(x);
+  }
+  if (o == "o.apply2.mut" && n == 4)
+  {
+    auto const f = tbl<R>(9, t[3]);
+    oA x{tok<oA>(t[1])};
+    oB y{tok<oB>(t[2])};
+    opt<R> const r{fo::apply(fn2m<R, A, B>("f", f), x, y)};
+    return show(r) + " " + show(x) + " " + show(y);
+  }
+  if (o == "o.mm2.mut" && n == 5)
+  {
+    std::optional<R> const d{tokx<R>(t[3])};
+    auto const f = tbl<R>(9, t[4]);
+    oA x{tok<oA>(t[1])};
+    oB y{tok<oB>(t[2])};
+    R const r{fo::maybe_multi(thunk<R>("d", d), fn2m<R, A, B>("t", f), x, y)};
+    return show(r) + " " + show(x) + " " + show(y);
+  }
+  if (o == "e.map.mut" && n == 3)
+  {
+    auto const f = tbl<B>(3, t[2]);
+    eA x{tok<eA>(t[1])};
+    eB const r{fe::map(x, fn1m<B, A>("f", f))};
+    return show(r) + " " + show(x);
+  }
+  if (o == "e.bind.mut" && n == 3)
+  {
+    auto const f = tbl<eB>(3, t[2]);
+    eA x{tok<eA>(t[1])};
+    eB const r{fe::bind(x, fn1m<eB, A>("f", f))};
+    return show(r) + " " + show(x);
+  }
+  if (o == "e.mapf.mut" && n == 3)
+  {
+    auto const f = tbl<B>(3, t[2]);
+    eA x{tok<eA>(t[1])};
+    eith<B, A> const r{fe::map_failure(x, fn1m<B, E>("f", f))};
+    return show(r) + " " + show(x);
+  }
+  if (o == "e.match.mut" && n == 4)
+  {
+    auto const ff = tbl<R>(3, t[2]);
+    auto const fs = tbl<R>(3, t[3]);
+    eA x{tok<eA>(t[1])};
+    R const r{fe::match(x, fn1m<R, E>("ff", ff), fn1m<R, A>("fs", fs))};
+    return show(r) + " " + show(x);
+  }
+  if (o == "e.apply2.mut" && n == 4)
+  {
+    auto const f = tbl<R>(9, t[3]);
+    eA x{tok<eA>(t[1])};
+    eB y{tok<eB>(t[2])};
+    eith<E, R> const r{fe::apply(fn2m<R, A, B>("f", f), x, y)};
+    return show(r) + " " + show(x) + " " + show(y);
+  }
+  if (o == "v.match.mut" && n == 5)
+  {
+    auto const fa = tbl<R>(3, t[2]);
+    auto const fb = tbl<R>(3, t[3]);
+    auto const fc = tbl<R>(3, t[4]);
+    var3 x{tok<var3>(t[1])};
+    R const r{fv::match(x, fn1m<R, A>("a", fa), fn1m<R, B>("b", fb), fn1m<R, C>("c", fc))};
+    return show(r) + " " + show(x);
+  }
+  if (o == "v.apply1.mut" && n == 3)
+  {
+    auto const f = tbl<R>(9, t[2]);
+    var3 x{tok<var3>(t[1])};
+    R const r{fv::apply(
+        [&f](auto &a) -> R
+        {
+          int const i = std::remove_cvref_t<decltype(a)>::tag;
+          int const old{a.v()};
+          lg("f", {i, old});
+          bump(a);
+          return f.at(i * 3 + ix(old));
+        },
+        x)};
+    return show(r) + " " + show(x);
+  }
+  throw bad_op{};
+}
+
+std::string op_vv(std::vector<std::string> const &t)
+{
+  std::string const &o = t[0];
+  std::size_t const n = t.size();
+  namespace fv = fcppt::variant;
+  if (o == "vv.assign" && n == 4)
+  {
+    var2 x{mk2(t[1])};
+    var2 y{mk2(t[2])};
+    bool const armed{tok<bool>(t[3])};
+    if (armed)
+    {
+      if (!fv::holds_type<thrower>(y))
+        throw bad_op{};
+      fv::get_unsafe<thrower>(y).armed = true;
+    }
+    bool threw{false};
+    try
+    {
+      x = y;
+    }
+    catch (E2 const &)
+    {
+      threw = true;
+    }
+    return show2(x) + " " + show(threw);
+  }
+  if (o == "vv.obs" && n == 3)
+  {
+    var2 const x{mk2(t[1])};
+    std::string const &k = t[2];
+    if (k == "invalid")
+      return show(x.is_invalid());
+    if (k == "index")
+      return x.type_index() == std::variant_npos ? "npos" : std::to_string(x.type_index());
+    if (k == "holds")
+      return "[" + show(fv::holds_type<A>(x)) + show(fv::holds_type<thrower>(x)) + "]";
+    if (k == "to_opt")
+      return show(fv::to_optional<A>(x));
+    if (k == "to_opt_ref")
+    {
+      auto const r{fv::to_optional_ref<A const>(x)};
+      return r.has_value() ? "J" + show(r.get_unsafe().get()) : std::string{"N"};
+    }
+    auto const f = [](auto const &a) -> int
+    {
+      if constexpr (std::is_same_v<std::remove_cvref_t<decltype(a)>, A>)
+      {
+        lg("a", {a.v()});
+        return a.v();
+      }
+      else
+      {
+        lg("t", {});
+        return 7;
+      }
+    };
+    if (k == "apply")
+      return std::to_string(fv::apply(f, x));
+    if (k == "match")
+      return std::to_string(fv::match(
+          x,
+          [](A const &a) -> int
+          {
+            lg("a", {a.v()});
+            return a.v();
+          },
+          [](thrower const &) -> int
+          {
+            lg("t", {});
+            return 7;
+          }));
+    if (k == "tinfo")
+    {
+      std::type_info const &ti{fv::type_info(x)};
+      return ti == typeid(A) ? "0" : ti == typeid(thrower) ? "1" : "9";
+    }
+    if (k == "out")
+    {
+      std::ostringstream os;
+      os << x;
+      return os.str();
+    }
+    throw bad_op{};
+  }
+  if (o == "vv.cmp" && n == 3)
+  {
+    var2 const l{mk2(t[1])}, r{mk2(t[2])};
+    return "[" + show(l == r) + show(l != r) + show(l < r) + "]";
+  }
+  if (o == "vv.compare" && n == 4)
+  {
+    var2 const l{mk2(t[1])}, r{mk2(t[2])};
+    bool const res{tok<bool>(t[3])};
+    return show(fv::compare(l, r, [res](auto const &a, auto const &) -> bool
+                            {
+                              if constexpr (std::is_same_v<std::remove_cvref_t<decltype(a)>, A>)
+                                lg("c", {0});
+                              else
+                                lg("c", {1});
+                              return res;
+                            }));
+  }
+  return op_mut(t);
+}
 
 // ------------------------------------------------------------------ operations
 std::string op(std::vector<std::string> const &t)
@@ -528,7 +1625,7 @@ std::string op(std::vector<std::string> const &t)
   }
   if (o == "o.alt" && n == 4)
   {
-    oA const a{tok<oA>(t[3])};
+    std::optional<oA> const a{tokx<oA>(t[3])};
     return cat1(t[1], tok<oA>(t[2]), [&](auto &&x) -> oA { return fo::alternative(FWD(x), thunk<oA>("a", a)); });
   }
   if (o == "o.combine" && n == 5)
@@ -544,12 +1641,12 @@ std::string op(std::vector<std::string> const &t)
                 { return fo::sequence<std::vector<A>>(FWD(x)); });
   if (o == "o.from" && n == 4)
   {
-    A const d{tok<A>(t[3])};
+    std::optional<A> const d{tokx<A>(t[3])};
     return cat1(t[1], tok<oA>(t[2]), [&](auto &&x) -> A { return fo::from(FWD(x), thunk<A>("d", d)); });
   }
   if (o == "o.maybe" && n == 5)
   {
-    B const d{tok<B>(t[3])};
+    std::optional<B> const d{tokx<B>(t[3])};
     auto const f = tbl<B>(3, t[4]);
     return cat1(t[1], tok<oA>(t[2]), [&](auto &&x) -> B { return fo::maybe(FWD(x), thunk<B>("d", d), fn1<B, A>("t", f)); });
   }
@@ -563,20 +1660,20 @@ std::string op(std::vector<std::string> const &t)
   }
   if (o == "o.mm1" && n == 5)
   {
-    R const d{tok<R>(t[3])};
+    std::optional<R> const d{tokx<R>(t[3])};
     auto const f = tbl<R>(3, t[4]);
     return cat1(t[1], tok<oA>(t[2]), [&](auto &&x) -> R { return fo::maybe_multi(thunk<R>("d", d), fn1<R, A>("t", f), FWD(x)); });
   }
   if (o == "o.mm2" && n == 6)
   {
-    R const d{tok<R>(t[4])};
+    std::optional<R> const d{tokx<R>(t[4])};
     auto const f = tbl<R>(9, t[5]);
     return cat2(t[1], tok<oA>(t[2]), tok<oB>(t[3]), [&](auto &&x, auto &&y) -> R
                 { return fo::maybe_multi(thunk<R>("d", d), fn2<R, A, B>("t", f), FWD(x), FWD(y)); });
   }
   if (o == "o.mm3" && n == 7)
   {
-    R const d{tok<R>(t[5])};
+    std::optional<R> const d{tokx<R>(t[5])};
     auto const f = tbl<R>(27, t[6]);
     return cat3(t[1], tok<oA>(t[2]), tok<oB>(t[3]), tok<oC>(t[4]), [&](auto &&x, auto &&y, auto &&z) -> R
                 { return fo::maybe_multi(thunk<R>("d", d), fn3<R, A, B, C>("t", f), FWD(x), FWD(y), FWD(z)); });
@@ -584,7 +1681,7 @@ std::string op(std::vector<std::string> const &t)
   if (o == "o.make_if" && n == 3)
   {
     bool const b{tok<bool>(t[1])};
-    A const v{tok<A>(t[2])};
+    std::optional<A> const v{tokx<A>(t[2])};
     return show(fo::make_if(b, thunk<A>("f", v)));
   }
   if (o == "o.cmp" && n == 3)
@@ -674,20 +1771,26 @@ std::string op(std::vector<std::string> const &t)
   }
   if (o == "e.first" && n == 2)
   {
-    std::vector<eA> const l{tok<std::vector<eA>>(t[1])};
+    std::vector<std::optional<eA>> const l{tok<std::vector<std::optional<eA>>>(t[1])};
     using function_type = fcppt::function<eA()>;
     std::vector<function_type> fns;
     for (std::size_t i = 0; i < l.size(); ++i)
       fns.push_back(function_type{[i, &l]() -> eA
                                   {
                                     lg("n", {static_cast<int>(i)});
-                                    return l[i];
+                                    if (!l[i].has_value())
+                                      throw E2{};
+                                    return *l[i];
                                   }});
     return show(fe::first_success(fns));
   }
-  if (o == "e.loop" && n == 2)
+  if (o == "e.loop" && (n == 2 || n == 3))
   {
     std::vector<eA> const l{tok<std::vector<eA>>(t[1])};
+    // the body: `u` returns, `X` throws, per value
+    std::string const body{n == 3 ? t[2] : std::string{"uuu"}};
+    if (body.size() != 3 || body.find_first_not_of("uX") != std::string::npos)
+      throw bad_op{};
     std::deque<eA> q(l.begin(), l.end());
     int calls = 0;
     return show(fe::loop(
@@ -700,17 +1803,22 @@ std::string op(std::vector<std::string> const &t)
           q.pop_front();
           return r;
         },
-        [](A a) { lg("b", {a.v()}); }));
+        [&body](A a)
+        {
+          lg("b", {a.v()});
+          if (body[static_cast<std::size_t>(ix(a.v()))] == 'X')
+            throw E2{};
+        }));
   }
   if (o == "e.from_opt" && n == 4)
   {
-    E const f{tok<E>(t[3])};
+    std::optional<E> const f{tokx<E>(t[3])};
     return cat1(t[1], tok<oA>(t[2]), [&](auto &&x) -> eA { return fe::from_optional(FWD(x), thunk<E>("f", f)); });
   }
   if (o == "e.try" && n == 3)
   {
     std::string const &r = t[1];
-    if (!(r == "Y" || (r.size() == 2 && (r[0] == 'R' || r[0] == 'X') && r[1] >= '0' && r[1] <= '2')))
+    if (!(r == "Y" || (r.size() == 2 && (r[0] == 'R' || r[0] == 'X' || r[0] == 'Z') && r[1] >= '0' && r[1] <= '2')))
       throw bad_op{};
     auto const f = tbl<E>(3, t[2]);
     return show(fe::try_call<E1>(
@@ -721,6 +1829,8 @@ std::string op(std::vector<std::string> const &t)
             throw E2{};
           if (r[0] == 'X')
             throw E1{r[1] - '0'};
+          if (r[0] == 'Z')
+            throw E1d{r[1] - '0'};
           return A{r[1] - '0'};
         },
         [&f](E1 const &e) -> E
@@ -830,12 +1940,199 @@ std::string op(std::vector<std::string> const &t)
   }
   if (o == "v.index" && n == 2)
     return std::to_string(tok<var3>(t[1]).type_index());
-  throw bad_op{};
+
+  // ---------------- the same object as both operands (lvalues only)
+  if (o == "o.combine.same" && n == 4)
+  {
+    auto const f = tbl<A>(9, t[3]);
+    return cat1(t[1], tok<oA>(t[2]), [&](auto &&x) -> oA { return fo::combine(x, x, fn2<A, A, A>("f", f)); });
+  }
+  if (o == "o.apply2.same" && n == 4)
+  {
+    auto const f = tbl<R>(9, t[3]);
+    return cat1(t[1], tok<oA>(t[2]), [&](auto &&x) -> opt<R> { return fo::apply(fn2<R, A, A>("f", f), x, x); });
+  }
+  if (o == "o.mm2.same" && n == 5)
+  {
+    std::optional<R> const d{tokx<R>(t[3])};
+    auto const f = tbl<R>(9, t[4]);
+    return cat1(t[1], tok<oA>(t[2]), [&](auto &&x) -> R { return fo::maybe_multi(thunk<R>("d", d), fn2<R, A, A>("t", f), x, x); });
+  }
+  if (o == "o.alt.same" && n == 3)
+    return cat1(t[1], tok<oA>(t[2]), [&](auto &&x) -> oA
+                {
+                  return fo::alternative(x, [&x]() -> oA
+                                         {
+                                           lg("a", {});
+                                           return x;
+                                         });
+                });
+  if (o == "o.cmp.same" && n == 2)
+  {
+    oA const a{tok<oA>(t[1])};
+    return "[" + show(a == a) + show(a != a) + show(a < a) + "]";
+  }
+  if (o == "e.apply2.same" && n == 4)
+  {
+    auto const f = tbl<R>(9, t[3]);
+    return cat1(t[1], tok<eA>(t[2]), [&](auto &&x) -> eith<E, R> { return fe::apply(fn2<R, A, A>("f", f), x, x); });
+  }
+  if (o == "v.cmp.same" && n == 2)
+  {
+    var3 const l{tok<var3>(t[1])};
+    return "[" + show(l == l) + show(l != l) + show(l < l) + "]";
+  }
+  if (o == "v.compare.same" && n == 3)
+  {
+    var3 const l{tok<var3>(t[1])};
+    auto const c = tbl<bool>(27, t[2]);
+    return show(fv::compare(l, l, [&c](auto const &a, auto const &b) -> bool
+                            {
+                              int const i = std::remove_cvref_t<decltype(a)>::tag;
+                              lg("c", {i, a.v(), b.v()});
+                              return c.at((i * 3 + ix(a.v())) * 3 + ix(b.v()));
+                            }));
+  }
+
+  // ---------------- continuations that return a reference to (the payload of) their argument
+  // (maybe / match / apply pass the result through as decltype(auto) / invoke_result_t): the result must be the
+  // payload inside the source object, not that of a temporary.  Lvalue sources only.
+  if (o == "o.maybe_ref" && n == 4)
+  {
+    int const dflt{tok<A>(t[3]).v()};
+    auto const go = [&](auto &x) -> std::string
+    {
+      int const &r{fo::maybe(
+          x,
+          [&dflt]() -> int const &
+          {
+            lg("d", {});
+            return dflt;
+          },
+          [](A const &a) -> int const &
+          {
+            lg("t", {a.v()});
+            return *a.p;
+          })};
+      std::string const where{&r == &dflt ? "d" : (x.has_value() && &r == x.get_unsafe().p) ? "in" : "other"};
+      return where + ":" + std::to_string(r);
+    };
+    oA x{tok<oA>(t[2])};
+    if (t[1] == "L")
+      return go(x);
+    if (t[1] == "C")
+      return go(std::as_const(x));
+    throw bad_op{};
+  }
+  if (o == "e.match_ref" && n == 3)
+  {
+    auto const go = [&](auto &x) -> std::string
+    {
+      int const &r{fe::match(
+          x,
+          [](E const &a) -> int const &
+          {
+            lg("ff", {a.v()});
+            return *a.p;
+          },
+          [](A const &a) -> int const &
+          {
+            lg("fs", {a.v()});
+            return *a.p;
+          })};
+      int const *const in{x.has_success() ? x.get_success_unsafe().p : x.get_failure_unsafe().p};
+      return std::string{&r == in ? "in" : "other"} + ":" + std::to_string(r);
+    };
+    eA x{tok<eA>(t[2])};
+    if (t[1] == "L")
+      return go(x);
+    if (t[1] == "C")
+      return go(std::as_const(x));
+    throw bad_op{};
+  }
+  if ((o == "v.match_ref" || o == "v.apply_ref") && n == 3)
+  {
+    bool const is_match{o == "v.match_ref"};
+    auto const go = [&](auto &x) -> std::string
+    {
+      auto const fa = [](A const &a) -> int const &
+      {
+        lg("a", {a.v()});
+        return *a.p;
+      };
+      auto const fb = [](B const &a) -> int const &
+      {
+        lg("b", {a.v()});
+        return *a.p;
+      };
+      auto const fc = [](C const &a) -> int const &
+      {
+        lg("c", {a.v()});
+        return *a.p;
+      };
+      auto const all = [](auto const &a) -> int const &
+      {
+        lg("f", {std::remove_cvref_t<decltype(a)>::tag, a.v()});
+        return *a.p;
+      };
+      int const &r{is_match ? fv::match(x, fa, fb, fc) : fv::apply(all, x)};
+      int const *const in{std::visit([](auto const &a) -> int const * { return a.p; }, x.impl())};
+      return std::string{&r == in ? "in" : "other"} + ":" + std::to_string(r);
+    };
+    var3 x{tok<var3>(t[2])};
+    if (t[1] == "L")
+      return go(x);
+    if (t[1] == "C")
+      return go(std::as_const(x));
+    throw bad_op{};
+  }
+
+  // ---------------- other container types
+  if (o == "o.cat.ld" && n == 3) // std::list -> std::deque
+  {
+    std::vector<oA> const v{tok<std::vector<oA>>(t[2])};
+    return cat1(t[1], std::list<oA>(v.begin(), v.end()), [&](auto &&x) -> std::vector<A>
+                {
+                  std::deque<A> const r{fo::cat<std::deque<A>>(FWD(x))};
+                  return std::vector<A>(r.begin(), r.end());
+                });
+  }
+  if (o == "o.seq.dl" && n == 3) // std::deque -> std::list
+  {
+    std::vector<oA> const v{tok<std::vector<oA>>(t[2])};
+    return cat1(t[1], std::deque<oA>(v.begin(), v.end()), [&](auto &&x) -> opt<std::vector<A>>
+                {
+                  return fo::map(fo::sequence<std::list<A>>(FWD(x)), [](std::list<A> &&l) { return std::vector<A>(l.begin(), l.end()); });
+                });
+  }
+  if (o == "v.apply3" && n == 6)
+  {
+    auto const f = tbl<R>(27, t[5]);
+    return cat3(t[1], tok<var3>(t[2]), tok<var3>(t[3]), tok<var3>(t[4]), [&](auto &&x, auto &&y, auto &&z) -> R
+                {
+                  return fv::apply(
+                      [&f](auto &&a, auto &&b, auto &&c) -> R
+                      {
+                        int const i = std::remove_cvref_t<decltype(a)>::tag;
+                        int const j = std::remove_cvref_t<decltype(b)>::tag;
+                        int const k = std::remove_cvref_t<decltype(c)>::tag;
+                        auto const a2{FWD(a)};
+                        auto const b2{FWD(b)};
+                        auto const c2{FWD(c)};
+                        lg("f", {i, a2.v(), j, b2.v(), k, c2.v()});
+                        return f.at((ix(a2.v()) * 3 + ix(b2.v())) * 3 + ix(c2.v()));
+                      },
+                      FWD(x), FWD(y), FWD(z));
+                });
+  }
+  return op2(t);
 }
 
 std::string handle1(std::vector<std::string> const &t)
 {
   g_log.clear();
+  g_src_mod = false;
+  auto const sm = [] { return std::string{g_src_mod ? " SRC-MODIFIED" : ""}; };
   try
   {
     std::string const r{op(t)};
@@ -847,15 +2144,15 @@ std::string handle1(std::vector<std::string> const &t)
   }
   catch (E2 const &)
   {
-    return "exc:E2 | " + show_log();
+    return "exc:E2" + sm() + " | " + show_log();
   }
   catch (E1 const &e)
   {
-    return "exc:E1:" + std::to_string(e.d) + " | " + show_log();
+    return "exc:E1:" + std::to_string(e.d) + sm() + " | " + show_log();
   }
   catch (std::exception const &)
   {
-    return "exc:std | " + show_log();
+    return "exc:std" + sm() + " | " + show_log();
   }
 }
 
@@ -877,6 +2174,9 @@ std::string handle(std::vector<std::string> const &t)
         ++count;
       }
     if (count != 1)
+      return "bad-op";
+    rest[star] = "000000000";
+    if (handle1(rest) == "bad-op")
       return "bad-op";
     std::uint64_t h = vh::fnv_init;
     for (unsigned i = 0; i < 19683U; ++i)
